@@ -988,6 +988,7 @@ class C18(E2EProp):
         show.check_table_and_stats(rng, tier, report)
         show.check_stats_expiry(rng, tier, report)
         show.check_map(rng, tier, report)
+        show.check_map_sites(rng, tier, report)
         show.check_map_aircraft(rng, tier, report)
 
 class C19(Prop):
